@@ -2,8 +2,11 @@
 import random
 import re
 import time
+import concurrent.futures as cf
 import vlib
 import evalcommon as ec
+import conffam
+import proc
 
 UNITS = [('seconds', 1), ('minutes', 60), ('hours', 3600), ('days', 86400), ('weeks', 604800), ('months', 2592000), ('years', 31536000)]
 TZS = ['UTC', 'Europe/Stockholm', 'America/New_York', 'Asia/Kolkata', 'Australia/Lord_Howe', 'Pacific/Auckland', 'America/St_Johns',
@@ -105,8 +108,21 @@ def run(rep):
             cases.append(ec.Case(conf, [], b'To: a\n\nb\n'))
             u = unit_oracle(lx)
             expect.append(('unit', None if (u is None or nn * u >= 2 ** 32 or nn >= 2 ** 32) else nn * u))
+    # integer literals (tools/conffam.py): digit strings around 2^31, 2^32, 2^63, 2^64, k*2^64 + a valid age, 2^96, 2^128, 10^19, 10^20, 38 nines,
+    # per-unit bounds, leading zeros x every unit abbreviation, through the real parser AND the real evaluator on a message that is two
+    # hours old: accepted iff N x unit <= UINT32_MAX, the age in the tree is exactly N x unit and the comparison uses it
+    AGE = 7200
+    for lit in conffam.int_literals(rep.tier):
+        for lx in conffam.unit_lexemes(rep.tier):
+            if len(lit) > 100 and lx not in ('seconds', 's', 'years'):
+                continue
+            cmp_ = '>' if (len(cases) % 3) else '<'
+            conf = 'maildir "~/md" {\n\tmatch date %s %s %s move "~/dst/a"\n}\n' % (cmp_, lit, lx)
+            cases.append(ec.Case(conf, [], b'To: a\nDate: ' + ec.gm(ec.NOW - AGE) + b' +0000\n\nb\n', 'new', '1.host', '0', tz='UTC'))
+            expect.append(('literal', (lit, lx, cmp_, conffam.age_oracle(lit, lx))))
     ec.run_cases(h, env, cases, want_spec=False)
     bad_corr = []
+    lit_bad = []
     stat = {'age_cases': 0, 'age_true': 0, 'unit_cases': 0, 'unit_accepted': 0}
     for c, (kind, want) in zip(cases, expect):
         if c.note == 'fault':
@@ -133,6 +149,30 @@ def run(rep):
             elif c.model is not None and (c.impl if c.dry == '1' else ec.impl_core(c)) != (c.model if c.dry == '1' else ec.model_core(c)):
                 bad_corr.append(c)
             continue
+        if kind == 'literal':
+            lit, lx, cmp_, age = want
+            stat['literal_cases'] = stat.get('literal_cases', 0) + 1
+            shown = lit if len(lit) <= 60 else '%s...(%d digits)' % (lit[:40], len(lit))
+            if age is None:
+                if c.impl != 'CONFERR':
+                    u = conffam.unit_value(lx)
+                    lit_bad.append(dict(c.readable(), config=c.conf[:300], implementation=(c.impl or '')[:200], specification='rejected when the configuration is parsed',
+                                                 what_='the age "%s %s" must be rejected (%s), but the configuration is accepted and a message that is %d seconds old gives %s' %
+                                                      (shown, lx, 'not a unit' if u is None else 'N x %d exceeds UINT32_MAX' % u, AGE, (c.impl or '').split(' ')[0])))
+                continue
+            stat['literal_accepted'] = stat.get('literal_accepted', 0) + 1
+            m = re.search(r' date \d+ h ([<>]) (\d+)', ' ' + (c.ast or ''))
+            exp = (AGE > age) if cmp_ == '>' else (AGE < age)
+            got = c.impl.split(' ')[0] if c.impl else None
+            if c.ast is None or not m or (m.group(1), int(m.group(2))) != (cmp_, age):
+                lit_bad.append(dict(c.readable(), implementation=(c.ast or c.impl or '')[:200], specification='age %d seconds' % age,
+                                             what_='the age "%s %s" is exactly %d seconds' % (shown, lx, age)))
+            elif got != ('MATCH' if exp else 'NOMATCH'):
+                lit_bad.append(dict(c.readable(), implementation=c.impl[:200], specification='MATCH' if exp else 'NOMATCH',
+                                             what_='a message %d seconds old against the age "%s %s" = %d seconds' % (AGE, shown, lx, age)))
+            elif c.model is not None and ec.impl_core(c) != ec.model_core(c):
+                bad_corr.append(c)
+            continue
         if kind == 'age':
             stat['age_cases'] += 1
             got = c.impl.split(' ')[0] if c.impl else None
@@ -154,6 +194,20 @@ def run(rep):
                 if c.ast is None or not m or int(m.group(1)) != want:
                     rep.finding('unlisted', dict(c.readable(), implementation=(c.ast or c.impl or '')[:200], specification='age %d' % want,
                                                  what='unit value / age'))
+    for it in conffam.pick(lit_bad, key=lambda it: it['what_'][:20]):
+        it = dict(it, what=it.pop('what_'), deviations_in_this_family=len(lit_bad), level='real parser and evaluator (harness h_expr)')
+        rep.finding('unlisted', it)
+    # the same family on the real binary (pinned clock): -n, -d and a real run on a maildir holding one message that is two hours old
+    tools = proc.Tools(sc)
+    pcases = conffam.int_process_cases(rep.tier)
+    with cf.ThreadPoolExecutor(vlib.NCPU) as ex:
+        pres = list(ex.map(lambda c_: conffam.judge_int_process(tools, c_, rep.tier), pcases))
+    pbad = [r for r in pres if r['problems']]
+    for r in conffam.pick(pbad, key=lambda it: it['kind'].split(':')[0] + re.sub(r'^.*?\]: |^.*?: ', '', it['problems'][0])[:30]):
+        rep.finding('unlisted', {'kind': r['kind'], 'config': r['config'], 'expected': r['expected'], 'what': r['problems'][:4],
+                                 'level': 'real binary (mdsort under the shim)', 'deviations_in_this_family': len(pbad)})
+    stat['literal_process_cases'] = len(pres)
+    stat['literal_process_rejected'] = sum(1 for r in pres if r['kind'].startswith('reject:'))
     if bad_corr and not rep.violations:
         rep.violation({'obligation': 'correspondence expr_eval_date <-> Model/Eval.lean', 'disagreements': len(bad_corr),
                        'examples': [dict(c.readable(), implementation=ec.impl_core(c), model=c.model) for c in bad_corr[:5]]}, False)
@@ -164,7 +218,11 @@ def run(rep):
         'rule': '%d zone strings against the offset formula; %d dates (instants 1970-2037 incl. both sides of DST switches, three layouts, '
                 'numeric zones -2359..+2359, GMT/UT/UTC, odd zones) parsed under %d TZ settings and compared with platform timegm minus zone '
                 'and with the model; %d date conditions with thresholds at age-1/age/age+1 under different TZ; every prefix of every unit '
-                'name x 7 counts (acceptance, value, 32-bit overflow); non-trivial = accepted/parsed inputs' % (ntz, n, len(TZS), stat['age_cases']),
+                'name x 7 counts (acceptance, value, 32-bit overflow); %d integer literals (around 2^31, 2^32, 2^63, 2^64, k*2^64 + a valid age, 2^96, 2^128, '
+                '10^19, 10^20, 38 nines, per-unit bounds, leading zeros) x %d unit lexemes through the real parser and evaluator on a message two '
+                'hours old (accepted iff N x unit <= UINT32_MAX, age exactly N x unit, comparison by that age) and %d of them on the real binary '
+                '(-n, -d, real run: rejected with a diagnostic and the message left, or moved iff 7200 > N x unit); non-trivial = accepted/parsed inputs'
+                % (ntz, n, len(TZS), stat['age_cases'], len(conffam.int_literals(rep.tier)), len(conffam.unit_lexemes(rep.tier)), len(pcases)),
         'samples': [{'request': d.line(reqs[i])[:200], 'implementation': impl[i], 'model': model[i], 'specification': spec[i]} for i in rng.sample(range(len(reqs)), 4)],
         'distribution': stat,
         'correspondence_mismatches': len(d.corr_mismatch) + len(bad_corr),
@@ -175,5 +233,13 @@ def run(rep):
 
 
 def replay(rep, path):
+    import json
     import msgcommon as mc
+    j = json.load(open(path))
+    if str(j.get('level', '')).startswith('real binary'):
+        sc = vlib.Scratch()
+        vlib.lean_gate(rep, 'C15', sc, [])
+        conffam.replay(j, sc)
+        rep.coverage.update({'evaluations': 1, 'distinct_nontrivial': 1})
+        return
     mc.generic_replay(rep, path, 'C15', {'tparse'}, {}, included=ec.INCLUDED, hname='h_expr')
